@@ -10,7 +10,8 @@
         observed (1 hdr body errno resend fwd clone) | (0)    clone = like fwd for a Clone() of the decoded packet    resend = BodyToBytes of the decoded packet,
                                      fwd = (1 hdr body) after sending the decoded packet on again
                                      through the same codec | (0) that failed
-     (4 hdr mode command arg)        request bound to a recording endpoint; mode 0 ReplyWith
+     (4 hdr mode command arg [st])   request bound to a recording endpoint in state st (bit 0: IsRunning()
+                                     is false, bit 1: SendPacket returns an error after taking the packet); mode 0 ReplyWith
                                      (command, body arg), 1 RefuseWith(command, ec), 2 Refuse(ec)
                                      4 ReplyWith(command, gov arg: any Go value SetBody supports)
         observed (1 nsent hdr body errno rBytes later) | (0) panicked
@@ -515,7 +516,9 @@ Definition check (c : sx) : verdict :=
           end
       | None => VBad
       end
-  | SList [SList [SInt 4; h; SInt mode; SInt command; arg]; obs] =>
+  (* an optional 6th element is the state of the endpoint the request is bound to (running or
+     closing, SendPacket succeeding or failing): the reply is handed to it whatever the state *)
+  | SList [SList (SInt 4 :: h :: SInt mode :: SInt command :: arg :: _); obs] =>
       match hdr_of h with
       | Some h =>
           let obs' :=
